@@ -391,11 +391,11 @@ pub fn scenarios(prop: &str, tier: &str) -> Vec<Cfg> {
                 c.name = format!("{:?} prefill {}", k, pre);
                 c.prefill = (0..pre).map(|_| if k.is_merge() { s("PI") } else { f(Mode::Gate) }).collect();
                 c.specs = if k.is_merge() { vec![] } else { vec![f(Mode::Gate), f(Mode::Ready), f(Mode::PanicOnce)] };
-                c.ops = ops::POLL | ops::COMPLETE | ops::WAKER_POOL | ops::DROP_SUBJECT | ops::STALE_WAKE;
+                c.ops = ops::POLL | ops::COMPLETE | ops::WAKER_POOL | ops::DROP_SUBJECT | ops::STALE_WAKE | ops::DROP_ON_WAKE;
                 if !k.is_merge() {
                     c.ops |= ops::PUSH;
                 }
-                c.costly = ops::PUSH;
+                c.costly = ops::PUSH | ops::DROP_ON_WAKE;
                 c.delta = 2;
                 c.depth = d;
                 c.epilogue = Epilogue::DropNow;
